@@ -40,7 +40,12 @@ pub trait AsCteXml {
 
     /// Helper function -> XML escape symbols
     fn escape_xml(unescaped: &str) -> String {
+        // Los caracteres no permitidos en XML 1.0 se sustituyen por U+FFFD
+        let is_xml_char = |c: char| {
+            matches!(c, '\u{9}' | '\u{A}' | '\u{D}' | '\u{20}'..='\u{D7FF}' | '\u{E000}'..='\u{FFFD}' | '\u{10000}'..='\u{10FFFF}')
+        };
         unescaped
+            .replace(|c: char| !is_xml_char(c), "\u{FFFD}")
             .replace('&', "&amp;")
             .replace('<', "&lt;")
             .replace('>', "&gt;")
